@@ -392,3 +392,180 @@ Example C17_examples :
     = Val (VTup (VInt 2016 :: VInt 366 :: VInt 86399 :: VInt 1700000000 :: nil)).
 Proof. exact examples. Qed.
 Print Assumptions C17_examples.
+
+(** ** every dispatcher op: which model function answers it (coverage/OPS_THEOREMS_C17.md) *)
+From Coq Require Import String.
+From V Require Model.C17 Proofs.HoldsLib Proofs.C17Ops Proofs.C17Holds.
+Import ListNotations.
+Notation run := V.Model.C17.run.
+Notation subsec_op := V.Model.C17.subsec_op.
+Notation sh_n_td := V.Proofs.C17Ops.sh_n_td.
+Notation sh_z_td := V.Proofs.C17Ops.sh_z_td.
+Notation ndt_ok := V.Proofs.C17Ops.ndt_ok.
+Notation dtz_ok := V.Proofs.C17Ops.dtz_ok.
+Notation lim_of := V.Proofs.C17Ops.lim_of.
+Notation sub_fn := V.Proofs.C17Holds.sub_fn.
+Notation vdate := V.Proofs.C03.vdate.
+Notation dnum := V.Proofs.C03.dn.
+(* [sh_n_td f] / [sh_z_td f]: two arguments, decoded with dec_ndt / dec_dtz and dec_td, the result of
+   [f] encoded with enc_res (value or err:<RoundingError variant>), PANIC where f traps, BADARGS
+   otherwise *)
+Theorem C17_dispatch : forall args,
+  run (B"rd.trunc") args = sh_n_td ndt_duration_trunc args /\
+  run (B"rd.round") args = sh_n_td ndt_duration_round args /\
+  run (B"rd.up") args = sh_n_td ndt_duration_round_up args /\
+  run (B"rd.ztrunc") args = sh_z_td dz_duration_trunc args /\
+  run (B"rd.zround") args = sh_z_td dz_duration_round args /\
+  run (B"rd.zup") args = sh_z_td dz_duration_round_up args /\
+  run (B"rd.rsub") args = subsec_op (@round_subsecs) args /\
+  run (B"rd.tsub") args = subsec_op (@trunc_subsecs) args.
+Proof. exact V.Proofs.C17Ops.dispatch. Qed.
+Print Assumptions C17_dispatch.
+(* the three kinds of rd.rsub / rd.tsub for every digit count of u16; anything else is BADARGS *)
+Theorem C17_subsec_dispatch : forall (f : forall T, tl T -> T -> Z -> R T) v digits,
+  (in_u16 digits = true ->
+   subsec_op f [VInt 1; v; VInt digits] =
+     match Time.dec_time v with Some t => val_of_R Time.enc_time (f _ time_ops t digits) | None => VBad end /\
+   subsec_op f [VInt 2; v; VInt digits] =
+     match dec_ndt v with Some a => val_of_R enc_ndt (f _ ndt_ops a digits) | None => VBad end /\
+   subsec_op f [VInt 3; v; VInt digits] =
+     match dec_dtz v with Some a => val_of_R enc_dtz (f _ dz_ops a digits) | None => VBad end /\
+   (forall kind, kind <> 1 -> kind <> 2 -> kind <> 3 -> subsec_op f [VInt kind; v; VInt digits] = VBad)) /\
+  (in_u16 digits = false -> forall kind, subsec_op f [VInt kind; v; VInt digits] = VBad).
+Proof. exact (fun f v digits => conj (V.Proofs.C17Ops.subsec_dispatch f v digits)
+                                     (fun H kind => V.Proofs.C17Ops.subsec_bad_digits f kind v digits H)). Qed.
+Print Assumptions C17_subsec_dispatch.
+
+(** ** SubsecRound over ANY carrier, unfolded: one read of the nanosecond field, then at most one
+    + or one - of a duration below one second (also inside a leap second: the field is below 2^32) *)
+Theorem C17_round_subsecs_unfolded : forall (T : Type) (ops : tl T) x digits frac,
+  0 <= digits -> tl_nanosecond ops x = Val frac -> 0 <= frac <= u32_max ->
+  round_subsecs ops x digits =
+    (if frac mod V.Judge.C17.sub_span digits >? 0 then
+       (if V.Judge.C17.sub_span digits - frac mod V.Judge.C17.sub_span digits <=? frac mod V.Judge.C17.sub_span digits
+        then tl_add ops x (mk_td 0 (V.Judge.C17.sub_span digits - frac mod V.Judge.C17.sub_span digits))
+        else tl_sub ops x (mk_td 0 (frac mod V.Judge.C17.sub_span digits)))
+     else Val x).
+Proof. exact (@V.Proofs.C17Ops.round_subsecs_unfold). Qed.
+Print Assumptions C17_round_subsecs_unfolded.
+Theorem C17_trunc_subsecs_unfolded : forall (T : Type) (ops : tl T) x digits frac,
+  0 <= digits -> tl_nanosecond ops x = Val frac -> 0 <= frac <= u32_max ->
+  trunc_subsecs ops x digits =
+    (if frac mod V.Judge.C17.sub_span digits >? 0
+     then tl_sub ops x (mk_td 0 (frac mod V.Judge.C17.sub_span digits)) else Val x).
+Proof. exact (@V.Proofs.C17Ops.trunc_subsecs_unfold). Qed.
+Print Assumptions C17_trunc_subsecs_unfolded.
+
+(** ** nine or more digits (9 ..= u16::MAX and beyond) return the value unchanged: for any carrier
+    whose nanosecond field can be read, hence for all three kinds, leap-second readings included,
+    with no range condition ([ndt_ok]: checked date word and secs < 86400, frac < 2*10^9;
+    [dtz_ok]: the same for the UTC part and an offset strictly inside one day) *)
+Theorem C17_subsecs_ge9_generic : forall (T : Type) (ops : tl T) x digits frac,
+  9 <= digits -> tl_nanosecond ops x = Val frac -> 0 <= frac <= u32_max ->
+  round_subsecs ops x digits = Val x /\ trunc_subsecs ops x digits = Val x.
+Proof. exact (@V.Proofs.C17Ops.subsecs_ge9_generic). Qed.
+Print Assumptions C17_subsecs_ge9_generic.
+Theorem C17_subsecs_ge9_unchanged_all_kinds : forall digits, 9 <= digits ->
+  (forall t, time_ok t ->
+     round_subsecs time_ops t digits = Val t /\ trunc_subsecs time_ops t digits = Val t) /\
+  (forall a, time_ok (nd_time a) ->
+     round_subsecs ndt_ops a digits = Val a /\ trunc_subsecs ndt_ops a digits = Val a) /\
+  (forall z, dtz_ok z ->
+     round_subsecs dz_ops z digits = Val z /\ trunc_subsecs dz_ops z digits = Val z).
+Proof. exact V.Proofs.C17Ops.subsecs_ge9_unchanged_all_kinds. Qed.
+Print Assumptions C17_subsecs_ge9_unchanged_all_kinds.
+Theorem C17_carriers_vocabulary : forall a z,
+  (ndt_ok a <-> vdate (nd_date a) /\ time_ok (nd_time a)) /\
+  (dtz_ok z <-> ndt_ok (dz_utc z) /\ -86400 < dz_off z < 86400) /\
+  (time_ok (nd_time a) <-> 0 <= Time.tsecs (nd_time a) < 86400 /\ 0 <= Time.tfrac (nd_time a) < 2000000000).
+Proof. exact (fun a z => conj (conj (fun H => H) (fun H => H)) (conj (conj (fun H => H) (fun H => H)) (conj (fun H => H) (fun H => H)))). Qed.
+Print Assumptions C17_carriers_vocabulary.
+(* at the level of the dispatcher ops (digits : u16): the argument comes back as it went in *)
+Theorem C17_subsecs_ge9_ops : forall kind v digits, in_u16 digits = true -> 9 <= digits ->
+  kind = 1 \/ kind = 2 \/ kind = 3 ->
+  run (B"rd.rsub") [VInt kind; v; VInt digits] <> VBad ->
+  run (B"rd.rsub") [VInt kind; v; VInt digits] = v /\ run (B"rd.tsub") [VInt kind; v; VInt digits] = v.
+Proof. exact V.Proofs.C17Holds.subsecs_ge9_ops. Qed.
+Print Assumptions C17_subsecs_ge9_ops.
+
+(** ** one + / - of less than a second on NaiveTime / NaiveDateTime for EVERY well-formed value,
+    leap-second readings included (C03's exactness theorems, used above, exclude them): within the
+    second, or into the next second — out of a leap second into the next ordinary one — with the
+    date moved by one day past midnight ([lim_of f] = 10^9, or 2*10^9 inside a leap second) *)
+Theorem C17_time_add_small : forall t n, time_ok t -> 0 < n < 1000000000 ->
+  Time.overflowing_add_signed t (mk_td 0 n) = Val (
+    if lim_of (Time.tfrac t) <=? Time.tfrac t + n
+    then (Time.mk_time ((Time.tsecs t + 1) mod 86400) (Time.tfrac t + n - lim_of (Time.tfrac t)),
+          if Time.tsecs t + 1 =? 86400 then 86400 else 0)
+    else (Time.mk_time (Time.tsecs t) (Time.tfrac t + n), 0)).
+Proof. exact V.Proofs.C17Ops.oas_small. Qed.
+Print Assumptions C17_time_add_small.
+Theorem C17_time_sub_small : forall t n, time_ok t -> 0 < n < 1000000000 -> n <= Time.tfrac t mod 1000000000 ->
+  Time.overflowing_sub_signed t (mk_td 0 n) = Val (Time.mk_time (Time.tsecs t) (Time.tfrac t - n), 0).
+Proof. exact V.Proofs.C17Ops.osub_small. Qed.
+Print Assumptions C17_time_sub_small.
+Theorem C17_naive_add_small : forall a n, ndt_ok a -> 0 < n < 1000000000 ->
+  let t := nd_time a in
+  let carry := lim_of (Time.tfrac t) <=? Time.tfrac t + n in
+  let k := if carry && (Time.tsecs t + 1 =? 86400) then 1 else 0 in
+  exists r, ndt_checked_add_signed a (mk_td 0 n) = Val r /\
+    match r with
+    | Some b =>
+        nd_time b = (if carry then Time.mk_time ((Time.tsecs t + 1) mod 86400) (Time.tfrac t + n - lim_of (Time.tfrac t))
+                     else Time.mk_time (Time.tsecs t) (Time.tfrac t + n)) /\
+        vdate (nd_date b) /\ dnum (nd_date b) = dnum (nd_date a) + k
+    | None => dn_in_range (dnum (nd_date a) + k) = false
+    end.
+Proof. exact V.Proofs.C17Ops.ndt_add_small. Qed.
+Print Assumptions C17_naive_add_small.
+Theorem C17_naive_sub_small : forall a n, ndt_ok a -> 0 < n < 1000000000 ->
+  n <= Time.tfrac (nd_time a) mod 1000000000 ->
+  exists b, ndt_checked_sub_signed a (mk_td 0 n) = Val (Some b) /\
+    nd_time b = Time.mk_time (Time.tsecs (nd_time a)) (Time.tfrac (nd_time a) - n) /\
+    vdate (nd_date b) /\ dnum (nd_date b) = dnum (nd_date a).
+Proof. exact V.Proofs.C17Ops.ndt_sub_small. Qed.
+Print Assumptions C17_naive_sub_small.
+Theorem C17_zoned_nanosecond : forall z, dtz_ok z -> dz_nanosecond z = Val (Time.tfrac (nd_time (dz_utc z))).
+Proof. exact V.Proofs.C17Ops.dz_nano_any. Qed.
+Print Assumptions C17_zoned_nanosecond.
+
+(** ** the judge accepts the model: for every op name and every argument list, whenever the
+    independent judge (Judge/C17.v) has an opinion on the model's output, the opinion is JOk.
+    No premise is needed: on every argument list in the judge's domain the dispatcher decodes.
+    Covers: all six span ops on every non-leap date-time, every offset, every span (error cases
+    included, either error where both are due); rd.rsub / rd.tsub for kinds 1, 2, 3, every digit
+    count of u16 and every value INCLUDING leap-second readings and carries across midnight / the end
+    of the year (the judge skips only when the carried value leaves the range of dates). *)
+Theorem C17_holds : forall op args,
+  V.Judge.C17.judge op args (run op args) <> JSkip -> V.Judge.C17.judge op args (run op args) = JOk.
+Proof. exact V.Proofs.C17Holds.C17_holds. Qed.
+Print Assumptions C17_holds.
+Theorem C17_never_bad : forall op args, V.Proofs.HoldsLib.not_bad (V.Judge.C17.judge op args (run op args)).
+Proof. exact V.Proofs.C17Holds.C17_never_bad. Qed.
+Print Assumptions C17_never_bad.
+(* the whole u16 range of digit counts in one statement ([sub_fn true] = round_subsecs,
+   [sub_fn false] = trunc_subsecs) *)
+Theorem C17_subsecs_whole_u16 : forall digits, in_u16 digits = true ->
+  span_for_digits digits = 10 ^ (9 - Z.min 9 digits) /\
+  (forall round kind v,
+     let args := [VInt kind; v; VInt digits] in
+     V.Judge.C17.judge_sub round args (subsec_op (sub_fn round) args) <> JSkip ->
+     V.Judge.C17.judge_sub round args (subsec_op (sub_fn round) args) = JOk) /\
+  (9 <= digits -> forall kind v, kind = 1 \/ kind = 2 \/ kind = 3 ->
+     run (B"rd.rsub") [VInt kind; v; VInt digits] <> VBad ->
+     run (B"rd.rsub") [VInt kind; v; VInt digits] = v /\ run (B"rd.tsub") [VInt kind; v; VInt digits] = v).
+Proof. exact V.Proofs.C17Holds.subsecs_whole_u16. Qed.
+Print Assumptions C17_subsecs_whole_u16.
+(* non-vacuity: the ends of u16; a leap-second carry across the end of a year (kind 2), a truncation
+   inside a leap second (kind 3), 65535 digits on a leap reading (kind 1), a tie on a zone-aware value *)
+Example C17_holds_inhabited :
+  in_u16 0 = true /\ in_u16 65535 = true /\ in_u16 65536 = false /\
+  V.Judge.C17.judge (B"rd.rsub") [VInt 2; VTup [VInt 2016; VInt 366; VInt 86399; VInt 1750500000]; VInt 0]
+    (run (B"rd.rsub") [VInt 2; VTup [VInt 2016; VInt 366; VInt 86399; VInt 1750500000]; VInt 0]) = JOk /\
+  V.Judge.C17.judge (B"rd.tsub") [VInt 3; VTup [VInt 2016; VInt 366; VInt 86399; VInt 1750500000; VInt 3600]; VInt 1]
+    (run (B"rd.tsub") [VInt 3; VTup [VInt 2016; VInt 366; VInt 86399; VInt 1750500000; VInt 3600]; VInt 1]) = JOk /\
+  run (B"rd.rsub") [VInt 1; VTup [VInt 86399; VInt 1999999999]; VInt 65535] = VTup [VInt 86399; VInt 1999999999] /\
+  V.Judge.C17.judge (B"rd.zround") [VTup [VInt 2012; VInt 347; VInt 66150; VInt 0; VInt (-3600)]; VTup [VInt 300; VInt 0]]
+    (run (B"rd.zround") [VTup [VInt 2012; VInt 347; VInt 66150; VInt 0; VInt (-3600)]; VTup [VInt 300; VInt 0]]) = JOk.
+Proof. exact V.Proofs.C17Holds.holds_examples. Qed.
+Print Assumptions C17_holds_inhabited.
